@@ -140,7 +140,7 @@ fn weak_collide(block: &[u8], r: &mut Rng) -> Option<Vec<u8>> {
 pub fn gen_pairs(seed: u64, tier: &str, salt: u64) -> Vec<Pair> {
     let mut r = Rng::new(seed ^ salt);
     let thorough = tier == "thorough";
-    let n = if thorough { 3000 } else { 300 };
+    let n = if thorough { 2400 } else { 300 };
     let valid = [512usize, 1024, 2048, 4096, 8192, 16384, 32768, 65536];
     let odd = [1usize, 2, 3, 7, 100, 1000, 5000, 70000];
     let mut out = vec![];
@@ -152,7 +152,7 @@ pub fn gen_pairs(seed: u64, tier: &str, salt: u64) -> Vec<Pair> {
         if id % 11 == 0 && bs >= 2048 {
             nblocks = nblocks.max(65536 / bs + 1); // > 64 KiB: the parallel signature path
         }
-        let cap = if thorough { 1 << 20 } else { 140_000 };
+        let cap = if thorough { 400_000 } else { 140_000 };
         let mut blen = nblocks * bs + if r.chance(1, 2) { r.below(bs as u64) as usize } else { 0 };
         if bs == 1 {
             blen = blen.min(24);
